@@ -11,7 +11,7 @@ PROP = {
                 'by repetition / threads / processes against the model',
     'trusted_base': HTML_TB + [
         "data races cannot be exhibited by the model: absence of shared mutable state is Rust's type system (Send + Sync, no unsafe impl) plus the source audit /verif/audit/c05_sites.txt",
-        "the syntect adapter is not linked into the harness (default-features = false): its attribute order is covered by attrs_order_independent and the fix, not by execution",
+        "the syntect adapter is linked into the harness (comrak feature `syntect`) and exercised by execution only (shared adapter across the documents of a worker, racing threads, fresh adapter); syntect itself (the syntax/theme tables, the regex engine) is outside the model",
     ],
     'assumptions': ['a new hash-map / ambient-state site in /repo/src is reported as a broken obligation (source audit), never by itself as a violation'],
 }
@@ -25,7 +25,7 @@ TEXT = {
             "written in HashMap order: different bytes from call to call) was repaired by a fix: commit. What a theorem cannot exhibit "
             "(thread interleavings, per-process hash seeds) is explored: each (document, options) is rendered repeatedly in one thread, "
             "from 8 threads sharing one Options value, and in fresh processes, by the HTML, XML and CommonMark formatters; all results "
-            "must be byte-identical. A syntactic audit compares every HashMap/HashSet/global-state site of /repo/src with a committed allow-list.",
+            "must be byte-identical. The syntax-highlighter plugin is run the same way: documents with fenced code blocks in known, unknown and empty languages are rendered through one SyntectAdapter shared by all cases of a worker process (state kept in the adapter across documents shows as a difference from a fresh adapter), by 8 racing threads, and by a fresh adapter. Footnote graphs (definitions that make the first reference to further footnotes, chains, cycles, nested and duplicate definitions) are a generator family of their own. A syntactic audit compares every HashMap/HashSet/global-state site of /repo/src with a committed allow-list.",
     'note': 'Trusted: Lean kernel + standard axioms; harness/driver; Rust type system for data-race freedom; the audit scanner. Partial by nature: '
             'schedules and processes are sampled.',
     'technique': 'Lean 4 theorems (sorted permutations are equal, via core List.Perm.eq_of_pairwise / mergeSort lemmas) + differential '
